@@ -91,11 +91,13 @@ CLAIMED = {
        "(map_pull_some / map_pull_none); one pull of `it ? p` calls source then predicate per element until the first accepted one or "
        "exhaustion and passes the source's tuple on unchanged (filter_pull over FilterLoop, any number of rejected elements); hence for "
        "every run (any effects on the store, threaded in order) the mapped / filtered iterator yields exactly g(x1)..g(xn) / the accepted "
-       "xi in order (map_pulls, filter_pulls) and `$]` of it is that array (map_collect, filter_collect). "
+       "xi in order (map_pulls, filter_pulls) and `$]` of it is that array (map_collect, filter_collect); `it ? T` likewise yields exactly the elements "
+       "whose run-time type is below T, unchanged and in order (tfilter_pulls, TFLoop.matches); `it $ init g` is foldl of the function the callback "
+       "computes and `it \\ p` is (filter q, filter (not q)) in source order, for sources of any length (reduce_fn_spec, reduce_run, partition_spec). "
        "Tied to the implementation by operator pipelines over array-derived and user-written sources with logging callbacks, "
        "compared three ways: implementation, Spec, and an independent Python simulation of list semantics (value and log).",
   note=SPEC_NOTE + " `Yields (a~) a` for the array iterator is exercised by the stream, not yet proved.",
-  technique="Lean 4 proof over a reference semantics (consumers as folds of any pull sequence; map and filter closures yield the mapped / accepted elements for runs of any length) + differential pipelines + list-semantics oracle", ref="DESIGN.md §6 C11"),
+  technique="Lean 4 proof over a reference semantics (consumers as folds of any pull sequence; map, filter and type-filter closures yield the mapped / accepted elements for runs of any length; reduce and partition as list functions) + differential pipelines + list-semantics oracle", ref="DESIGN.md §6 C11"),
  "C12": dict(
   text="Lean 4 theorems about Spec: a function call never lets break / continue / return escape (all other signals pass), turns "
        "`return v` of its body into its value and falling off the end into (); loop bodies catch break / continue and propagate "
